@@ -207,6 +207,7 @@ func scenUI(r *Run, o uiOpts) {
 		}
 		var seqs []*typing
 		advance := func() {
+			synctest.Wait() // whatever the last event woke must have come to rest before state is read
 			for _, q := range seqs {
 				if q.pos < len(q.b) && (q.last < 0 || u.Returned(q.last)) {
 					q.last = u.Key(q.b[q.pos])
@@ -215,6 +216,7 @@ func scenUI(r *Run, o uiOpts) {
 			}
 		}
 		busy := func() bool {
+			synctest.Wait()
 			for _, q := range seqs {
 				if q.pos < len(q.b) {
 					return true
